@@ -1,7 +1,7 @@
 // Appended to rln/src/utils.rs of a scratch copy of /repo (never committed there).
 // Checks, on the REAL compiled functions, the contracts that the Verus unit `codecs` has to assume
 // (bodies Verus cannot process): normalize_usize, fr_byte_size's associated constant, bytes_le_to_vec_usize,
-// and searches concrete crashing inputs for the decoders that do not involve field arithmetic.
+// and checks no-panic on arbitrary bytes for the decoders that do not involve field arithmetic.
 #[cfg(kani)]
 mod verif_kani {
     use super::*;
@@ -37,34 +37,34 @@ mod verif_kani {
             | (b[off + 4] as u64) << 32 | (b[off + 5] as u64) << 40 | (b[off + 6] as u64) << 48 | (b[off + 7] as u64) << 56
     }
 
-    // BOUNDED (input <= 27 bytes): the contract of bytes_le_to_vec_usize assumed by Verus, on inputs whose length
-    // is 8 + 8k (or whose count field is 0): Ok, one element per 8-byte group, each the LE value of its group.
+    // BOUNDED (input <= 27 bytes): the contract of bytes_le_to_vec_usize assumed by Verus: Ok exactly for a count field
+    // followed by whole 8-byte groups; then one element per group, each the LE value of its group (none for count 0).
     #[kani::proof]
     #[kani::unwind(6)]
     fn vec_usize_decoder_contract() {
         let buf: [u8; MAXB] = kani::any();
         let n: usize = kani::any();
-        kani::assume(n >= 8 && n <= MAXB);
+        kani::assume(n <= MAXB);
         let input = &buf[..n];
-        let count = le64_at(input, 0);
-        kani::assume(count == 0 || (n - 8) % 8 == 0);
         let r = bytes_le_to_vec_usize(input);
-        assert!(r.is_ok(), "bytes_le_to_vec_usize/vec-usize-decoder-accepts-fitting-input");
-        let out = r.unwrap();
-        if count == 0 {
-            assert!(out.is_empty(), "bytes_le_to_vec_usize/vec-usize-decoder-zero-count-is-empty");
-        } else {
-            assert!(out.len() == (n - 8) / 8, "bytes_le_to_vec_usize/vec-usize-decoder-one-element-per-group");
-            let mut i = 0;
-            while i < out.len() {
-                assert!(out[i] as u64 == le64_at(input, 8 + 8 * i), "bytes_le_to_vec_usize/vec-usize-decoder-layout");
-                i += 1;
+        assert!(r.is_ok() == (n >= 8 && (n - 8) % 8 == 0), "bytes_le_to_vec_usize/vec-usize-decoder-accepts-iff-whole-groups");
+        if let Ok(out) = r {
+            let count = le64_at(input, 0);
+            if count == 0 {
+                assert!(out.is_empty(), "bytes_le_to_vec_usize/vec-usize-decoder-zero-count-is-empty");
+            } else {
+                assert!(out.len() == (n - 8) / 8, "bytes_le_to_vec_usize/vec-usize-decoder-one-element-per-group");
+                let mut i = 0;
+                while i < out.len() {
+                    assert!(out[i] as u64 == le64_at(input, 8 + 8 * i), "bytes_le_to_vec_usize/vec-usize-decoder-layout");
+                    i += 1;
+                }
             }
         }
     }
 
-    // BOUNDED (input <= 27 bytes), C13 no-panic on ANY bytes.  Expected to FAIL on the current tree (input shorter than
-    // 8 bytes; non-zero count with a tail that is not a whole 8-byte group): concrete playback gives the bytes.
+    // BOUNDED (input <= 27 bytes), C13 no-panic on ANY bytes (failed before fix a023a1b: input shorter than 8 bytes;
+    // non-zero count with a tail that is not a whole 8-byte group).
     #[kani::proof]
     #[kani::unwind(6)]
     fn vec_usize_decoder_nopanic() {
@@ -74,8 +74,8 @@ mod verif_kani {
         let _ = bytes_le_to_vec_usize(&buf[..n]);
     }
 
-    // BOUNDED (input <= 20 bytes), C13 no-panic on ANY bytes for the byte-vector decoder.  Expected to FAIL on the
-    // current tree (short input, declared length beyond the input, 8 + len overflow).
+    // BOUNDED (input <= 20 bytes), C13 no-panic on ANY bytes for the byte-vector decoder (failed before fix a023a1b:
+    // short input, declared length beyond the input, 8 + len overflow).
     #[kani::proof]
     #[kani::unwind(22)]
     fn vec_u8_decoder_nopanic() {
